@@ -29,6 +29,7 @@ RULE = ("Generated histories: live objects are built once - 2-4 assets (contract
         "call must raise too and vice versa; price containers must equal their pristine copies after every "
         "step. Non-trivial: the history contains >= 2 set-ups touching the same asset with different time zone or "
         "horizon, or a set-up after a serialise/reload, and no precondition error. Distinct = distinct spec hash.")
+RULE += (" A fix dictionary shared by all grids (date + solution vector longer than any problem), a rolled grid (same length, moved by 1-3 steps), capacities as the caller's float array, and compound operations set-up/optimise/extract whose tables are compared with those fresh objects give for the same solution vector.")
 ASSUMPTIONS = ["the fresh-object call defines the expected outcome, including expected exceptions for invalid combinations "
                "(e.g. zone-aware stamps on a naive grid)",
                "operations are generated as a list and interpreted in order (equivalent to a rule-based state machine with "
